@@ -108,9 +108,9 @@ R04B_ALLOWED = {
     "_expr.ArrowStringConversion": "column-wise",
     "_expr.ToTimestamp": "index only",
     "_expr.IsNa": "column-wise",
-    "_expr.Mask": "cond/other are expressions aligned on the index",
+    "_expr.Mask": "cond/other are aligned on the index and on the frame's columns (a single-column selection narrows them too, see plain_column_projection)",
     "_expr.Round": "dict decimals: pandas ignores absent columns",
-    "_expr.Where": "cond/other are expressions aligned on the index",
+    "_expr.Where": "cond/other are aligned on the index and on the frame's columns (a single-column selection narrows them too, see plain_column_projection)",
     "_expr.Abs": "column-wise",
     "_expr.RenameAxis": "axis names only",
     "_expr.NotNull": "column-wise",
@@ -119,8 +119,9 @@ R04B_ALLOWED = {
     "_expr.FillnaCheck": "column-wise check",
     "_expr.FillnaAlign": "as Fillna",
     "_expr.FilterAlign": "as Filter",
-    "_expr.OpAlignPartitions": "operands are expressions",
-    "_expr.MethodOperatorAlign": "operands are expressions",
+    # OpAlignPartitions / MethodOperatorAlign were listed here as "operands are expressions" - wrongly: the result has the
+    # union of both inputs' columns, the generic pass-through prunes only the first (defect repaired in /repo, the classes
+    # now have a rule of their own that prunes both inputs)
     "_shuffle.SortIndexBlockwise": "index only",
 }
 R04B_COMPUTED = {
@@ -143,6 +144,22 @@ def r04b(ctx):
         ctx.bad("_expr.Blockwise._projection_passthrough", bw.loc, "the Blockwise default is no longer False")
     else:
         ctx.ok("_expr.Blockwise._projection_passthrough", bw.loc, "default False")
+    # the helper itself: a single-column selection turns the frame into a Series, so frame-like operands must be narrowed too
+    from sa.rules.util import pfind
+
+    pmod, pcp = model.func("_expr", "plain_column_projection")
+    cu = None
+    for a_, b_ in pfind("V_cu = determine_column_projection(V__, V__, V__, additional_columns=V__)", pcp):
+        cu = b_["V_cu"]
+    if cu is None:
+        raise AnalysisError("anchor vanished: column union of plain_column_projection")
+    narrowed = False
+    for comp in (x for x in ast.walk(pcp) if isinstance(x, (ast.ListComp, ast.GeneratorExp))):
+        if pfind(f"V_op[{cu}]", comp.elt) and "operands" in ast.unparse(comp.generators[0].iter):
+            pt = flow.point_of(pcp, comp)
+            if pt is not None and any((not pol) and ast.unparse(t) == f"isinstance({cu}, list)" for t, pol in flow.facts(pt)):
+                narrowed = True
+    (ctx.ok if narrowed else ctx.bad)("_expr.plain_column_projection:single-column", pmod.loc(pcp), "a single-column selection also narrows the frame-like operands" if narrowed else "a single-column selection turns only the first operand into a Series: row-aligned frame operands (cond / other of where and mask, a frame of fill values) stay DataFrames and the rebuilt operation fails or mis-aligns")
     n = 0
     for c in model.expr_classes():
         mem = c.provider("_projection_passthrough")
